@@ -112,6 +112,46 @@ def nearestNeighbors (order : List Rat → List Nat) (t : Tree O) (k : Nat) (px 
   let r ← knnNode order k px py t.root (List.replicate k none)
   pure (r.map fun c => c.map (·.2))
 
+/-! ### histories with interleaved queries
+
+The model is functional: a query takes the tree and returns an answer; nothing it computes can
+reach a later call (`C12_history`). -/
+
+inductive Step (O : Type) where
+  | op (o : Op O)
+  | nn (px py : Rat)
+  | knn (k : Nat) (px py : Rat)
+
+inductive Answer (O : Type) where
+  | nn (r : Except Fault O)
+  | knn (r : Except Fault (List (Option O)))
+
+def evalQ (order : List Rat → List Nat) (t : Tree O) : Step O → Option (Answer O)
+  | .op _ => none
+  | .nn x y => some (.nn (nearestNeighbor order t x y))
+  | .knn k x y => some (.knn (nearestNeighbors order t k x y))
+
+/-- a history of operations and queries: final tree and the answers in order (a panic inside a
+query is an answer; a panic inside Insert/Delete ends the history) -/
+def runSteps [DecidableEq O] [Bounded O] (H : Heur) (order : List Rat → List Nat) :
+    Tree O → List (Step O) → Except Fault (Tree O × List (Answer O))
+  | t, [] => pure (t, [])
+  | t, .op o :: r => do let (t', _) ← t.step H o; runSteps H order t' r
+  | t, q :: r =>
+    match evalQ order t q with
+    | some a => do let (t', as) ← runSteps H order t r; pure (t', a :: as)
+    | none => runSteps H order t r
+
+def opsOf : List (Step O) → List (Op O)
+  | [] => []
+  | .op o :: r => o :: opsOf r
+  | _ :: r => opsOf r
+
+def numQ : List (Step O) → Nat
+  | [] => 0
+  | .op _ :: r => numQ r
+  | _ :: r => numQ r + 1
+
 /-- the visiting order of `sort.Sort` for at most 12 entries (insertion sort, stable):
 indices sorted by key, ties in index order -/
 def stableOrder (ds : List Rat) : List Nat :=
